@@ -36,10 +36,16 @@ func (c *Ctx) sessionQueuesWriteOnce() {
 		}
 		n++
 		var others []string
+		initFn := c.P.Func("sessions", "Session", "Init")
 		for _, w := range c.whoWrites("sessions", "Session", f.Name()) {
-			if !(w.Name() == "Init" && recvNamed(w) == "Session") {
-				others = append(others, fname(w))
+			if w.Name() == "Init" && recvNamed(w) == "Session" {
+				continue
 			}
+			// a helper that only Init calls (initAckqueues)
+			if initFn != nil && (w.Object() == nil || !w.Object().Exported()) && c.calledOnlyVia(w, initFn, 2) {
+				continue
+			}
+			others = append(others, fname(w))
 		}
 		sort.Strings(others)
 		c.R.Check(len(others) == 0, ruleP9, "Session."+f.Name()+":created-once-by-Init", c.P.Pos(f.Pos()), "stored only by Session.Init",
